@@ -56,15 +56,16 @@ Proof. exact @point_push. Qed.
 Print Assumptions C05_point_push.
 
 (* specialising to a box: decisions read from bounds that enclose the point's
-   slot values are justified at the point, provided the min/max arguments are
-   ordered values (not NaN: the property's own restriction) *)
+   slot values are justified at the point; a min/max argument that may be NaN
+   (flag set) forces both branches to be kept, every unflagged slot holds an
+   ordered (non-NaN) value *)
 Theorem C05_interval_push :
   forall (num : Type) (O : ops num) (oracle_at : nat -> num -> num -> num -> num) (d : deck)
-         (ok : num -> Prop) n t v lo hi,
+         (ok : num -> Prop) n t v lo hi maybe_nan,
     tape_wf d n t -> length v = n -> ord_laws O ok ->
     let w := eval_tape O oracle_at d (t_clauses t) v in
-    encloses O lo hi w -> minmax_args_ok O ok (t_clauses t) w ->
-    let t' := tape_push n (keep_interval O lo hi) t in
+    encloses O lo hi w -> flags_sound O ok maybe_nan w ->
+    let t' := tape_push n (keep_interval O lo hi maybe_nan) t in
     tape_wf d n t' /\
     sget O (eval_tape O oracle_at d (t_clauses t') v) (t_root t') = sget O w (t_root t).
 Proof. exact @interval_push. Qed.
